@@ -280,8 +280,9 @@ def check_debugger(rec, idx, of):
     ft = FakeTime()
     dbg.time = ft
     n = 0
-    for evalex, pin_on in itertools.product([True, False], [True, False]):
-        app = DebuggedApplication(inner, evalex=evalex, pin_security=pin_on)
+    for evalex, pin_on, pin_logging in itertools.product([True, False], [True, False], [True, False]):
+        # (pin_logging only says whether the PIN is printed at start-up: no gate depends on it)
+        app = DebuggedApplication(inner, evalex=evalex, pin_security=pin_on, pin_logging=pin_logging)
         if pin_on:
             cname = app.pin_cookie_name
             app.pin = "111-222-333"
@@ -324,7 +325,7 @@ def check_debugger(rec, idx, of):
                 env["HTTP_HOST"] = host
             if COOKIES[ck] is not None:
                 env["HTTP_COOKIE"] = f"{cname}={COOKIES[ck]}"
-            cell = {"part": "debugger", "evalex": evalex, "pin_on": pin_on, "cmd": cmd, "secret": secret, "host": host, "cookie": ck, "frame": frm}
+            cell = {"part": "debugger", "evalex": evalex, "pin_on": pin_on, "pin_logging": pin_logging, "cmd": cmd, "secret": secret, "host": host, "cookie": ck, "frame": frm}
             rec.case()
             rec.observe("debugger_cells")
             try:
